@@ -195,6 +195,71 @@ func C12(c *core.Ctx) {
 			}
 		}
 	}
+	// (a') messages as the CONSTRUCTORS build them, several of each kind alive at once: every one gets its own id, a
+	// new one has none before it is asked, an id supplied by the caller on one is not seen on the others, and each
+	// encoding carries the id of its own message
+	{
+		el := protocol.EntryList{{Timestamp: protocol.EventTimeNow(), Record: map[string]interface{}{"k": "v"}}}
+		ctors := map[string]func() protocol.ChunkEncoder{
+			"NewMessage":              func() protocol.ChunkEncoder { return protocol.NewMessage("t", map[string]interface{}{"k": "v"}) },
+			"NewMessageExt":           func() protocol.ChunkEncoder { return protocol.NewMessageExt("t", map[string]interface{}{"k": "v"}) },
+			"NewForwardMessage":       func() protocol.ChunkEncoder { return protocol.NewForwardMessage("t", el) },
+			"NewPackedForwardMessage": func() protocol.ChunkEncoder { m, _ := protocol.NewPackedForwardMessage("t", el); return m },
+			"NewPackedForwardMessageFromBytes": func() protocol.ChunkEncoder {
+				return protocol.NewPackedForwardMessageFromBytes("t", []byte{0x92, 0xd7, 0, 0, 0, 0, 1, 0, 0, 0, 0, 0x80})
+			},
+			"NewCompressedPackedForwardMessage": func() protocol.ChunkEncoder { m, _ := protocol.NewCompressedPackedForwardMessage("t", el); return m },
+			"NewCompressedPackedForwardMessageFromBytes": func() protocol.ChunkEncoder {
+				m, _ := protocol.NewCompressedPackedForwardMessageFromBytes("t", []byte{0x92, 0xd7, 0, 0, 0, 0, 1, 0, 0, 0, 0, 0x80})
+				return m
+			},
+		}
+		names := make([]string, 0, len(ctors))
+		for n := range ctors {
+			names = append(names, n)
+		}
+		sort.Strings(names)
+		for _, name := range names {
+			mk := ctors[name]
+			a, b := mk(), mk()
+			ida, erra := a.Chunk()
+			idb, errb := b.Chunk()
+			third := mk()
+			c.Eval()
+			c.Hist("constructed " + name)
+			replay := map[string]interface{}{"constructor": name, "id_a": ida, "id_b": idb}
+			if erra != nil || errb != nil || ida == "" || idb == "" {
+				c.Violation("judge-go", "c12-constructed", "Chunk() failed on a constructed message ("+name+")", replay)
+				continue
+			}
+			if ida == idb {
+				c.Violation("judge-go", "c12-duplicate", "two messages built by "+name+" received the same chunk id", replay)
+			}
+			if o := optsOf(third); o != nil && o.Chunk != "" {
+				c.Violation("judge-go", "c12-born-with-chunk", "a message just built by "+name+" already carries the chunk id "+o.Chunk, replay)
+			}
+			if o := optsOf(third); o == nil {
+				setOpts(third, &protocol.MessageOptions{Chunk: "caller-supplied-id"})
+			} else {
+				o.Chunk = "caller-supplied-id"
+			}
+			if id, _ := third.Chunk(); id != "caller-supplied-id" {
+				c.Violation("judge-go", "c12-caller-id", "a caller-supplied chunk id was not kept ("+name+")", replay)
+			}
+			for _, x := range []struct {
+				m    protocol.ChunkEncoder
+				want string
+			}{{a, ida}, {b, idb}} {
+				if again, _ := x.m.Chunk(); again != x.want {
+					c.Violation("judge-go", "c12-stable", "the chunk id of a message changed after another message of the same kind got its own ("+name+")", replay)
+				}
+				enc, _ := x.m.(interface{ MarshalMsg([]byte) ([]byte, error) }).MarshalMsg(nil)
+				if got, err := protocol.GetChunk(enc); err != nil || got != x.want {
+					c.Violation("judge-go", "c12-wire", "the encoding of a constructed message does not carry its own chunk id ("+name+")", replay)
+				}
+			}
+		}
+	}
 	// (b') the random source fails for a while (the process is out of file descriptors, the entropy device errors):
 	// a Chunk() call during the outage fails one way or another (uuid.New panics), but no message may end up with
 	// an id that was not drawn from the source: when the source is back every message gets its own fresh id, and
@@ -312,4 +377,17 @@ func (f *failingRand) handedOut(id []byte) bool {
 		}
 	}
 	return false
+}
+
+func setOpts(m protocol.ChunkEncoder, o *protocol.MessageOptions) {
+	switch t := m.(type) {
+	case *protocol.Message:
+		t.Options = o
+	case *protocol.MessageExt:
+		t.Options = o
+	case *protocol.ForwardMessage:
+		t.Options = o
+	case *protocol.PackedForwardMessage:
+		t.Options = o
+	}
 }
